@@ -1,7 +1,11 @@
 (* C09, stage 1a: the gap list.  Facts about contains / is_missing / sort_gaps / the
    _cleanup_gaps loop / _remove_gap, and the specification of _update_gaps. *)
 From Coq Require Import Lia ZifyBool.
-From Verif Require Import model.RingBuffer.
+From Verif Require Import gen.RingBuffer model.RingBuffer.
+
+(* the translated OrderedRingBuffer.wrap is the floor modulus the proofs reason about *)
+Lemma wrap_mod : forall c i, wrap c i = i mod c.
+Proof. reflexivity. Qed.
 
 Ltac brk :=
   repeat match goal with
